@@ -315,3 +315,21 @@ Proof.
   - cbn [snd fst]. apply Z.ltb_lt in L. split; [symmetry; apply Z.leb_le; lia|intros D; discriminate].
   - cbn [snd fst l_budget]. apply Z.ltb_ge in L. split; [symmetry; apply Z.leb_gt; lia|reflexivity].
 Qed.
+
+(** ** the frame: every stack temporary has its slot inside the reserved area and the stack pointer
+    is 16-byte aligned in the body (which is what the call templates' "even number of words pushed"
+    is relative to) *)
+Theorem frame_ok_sound : forall temps pushes sub_bytes, frame_ok temps pushes sub_bytes = true ->
+  forall rsp0, (rsp0 + 8) mod 16 = 0 ->
+  (rsp0 - 8 * pushes - sub_bytes) mod 16 = 0 /\
+  (forall t, 0 <= t < temps -> 0 <= 8 * t /\ 8 * t + 8 <= sub_bytes).
+Proof.
+  intros temps pushes sub_bytes H rsp0 A. unfold frame_ok in H.
+  apply andb_prop in H. destruct H as [H H4]. apply andb_prop in H. destruct H as [H H3].
+  apply andb_prop in H. destruct H as [H1 H2].
+  apply Z.eqb_eq in H1. apply Z.leb_le in H2. apply Z.leb_le in H3. apply Z.eqb_eq in H4.
+  split.
+  - replace (rsp0 - 8 * pushes - sub_bytes) with ((rsp0 + 8) + (-1) * (8 + 8 * pushes + sub_bytes)) by ring.
+    rewrite Z.add_mod, A, Z.mul_mod, H4 by lia. reflexivity.
+  - intros t Ht. lia.
+Qed.
